@@ -526,6 +526,46 @@ func ruleR163(c *Ctx) {
 					compared = append(compared, nodeStr(c.Fset, t.Args[1]))
 				}
 			}
+			// a membership helper of the package: containsString(*outersUsed, outer) with a loop that compares the
+			// elements of its first parameter with its second one
+			if cal := Callee(info, t); cal != nil && cal.Pkg() == root.Types && len(t.Args) == 2 {
+				if _, isStar := ast.Unparen(t.Args[0]).(*ast.StarExpr); isStar {
+					if hd := findFuncDecl(root, cal); hd != nil && hd.Body != nil && hd.Recv == nil && hd.Type.Params.NumFields() == 2 {
+						var ps []types.Object
+						for _, fl := range hd.Type.Params.List {
+							for _, nm := range fl.Names {
+								ps = append(ps, info.Defs[nm])
+							}
+						}
+						member := false
+						ast.Inspect(hd.Body, func(y ast.Node) bool {
+							rs, ok := y.(*ast.RangeStmt)
+							if !ok || len(ps) != 2 {
+								return true
+							}
+							xid, ok1 := ast.Unparen(rs.X).(*ast.Ident)
+							vid, ok2 := rs.Value.(*ast.Ident)
+							if !ok1 || !ok2 || info.ObjectOf(xid) != ps[0] {
+								return true
+							}
+							ast.Inspect(rs.Body, func(z ast.Node) bool {
+								if be, ok := z.(*ast.BinaryExpr); ok && be.Op == token.EQL {
+									a, okA := ast.Unparen(be.X).(*ast.Ident)
+									b, okB := ast.Unparen(be.Y).(*ast.Ident)
+									if okA && okB && (info.ObjectOf(a) == info.ObjectOf(vid) && info.ObjectOf(b) == ps[1] || info.ObjectOf(b) == info.ObjectOf(vid) && info.ObjectOf(a) == ps[1]) {
+										member = true
+									}
+								}
+								return true
+							})
+							return true
+						})
+						if member {
+							compared = append(compared, nodeStr(c.Fset, t.Args[1]))
+						}
+					}
+				}
+			}
 		case *ast.RangeStmt:
 			if _, isStar := ast.Unparen(t.X).(*ast.StarExpr); isStar {
 				if v, ok := t.Value.(*ast.Ident); ok {
